@@ -118,6 +118,75 @@ def _memo_findings(ctx, modules):
                            f'{", without bound" if unbounded else ""}')
 
 
+STR_METHODS = {'strip', 'lstrip', 'rstrip', 'upper', 'lower', 'title', 'format', 'join', 'replace', 'removeprefix', 'removesuffix',
+               'zfill', 'casefold', 'capitalize'}
+
+
+def _str_kind(expr, fn):
+    """Is the expression provably a plain str (the only key kind whose equality is exactly equality of what is computed from it)?"""
+    if isinstance(expr, ast.Constant):
+        return isinstance(expr.value, str)
+    if isinstance(expr, ast.JoinedStr):
+        return True
+    if isinstance(expr, ast.Call):
+        if isinstance(expr.func, ast.Name) and expr.func.id == 'str':
+            return True
+        if isinstance(expr.func, ast.Attribute) and expr.func.attr in STR_METHODS:
+            return True
+        return False
+    if isinstance(expr, ast.BinOp) and isinstance(expr.op, (ast.Add, ast.Mod)):
+        return _str_kind(expr.left, fn) and (isinstance(expr.op, ast.Mod) or _str_kind(expr.right, fn))
+    if isinstance(expr, ast.Name) and fn is not None:
+        for a in fn.args.posonlyargs + fn.args.args + fn.args.kwonlyargs:
+            if a.arg == expr.id:
+                return isinstance(a.annotation, ast.Name) and a.annotation.id == 'str'
+        binds = [x for x in walk_local(fn) if isinstance(x, ast.Assign) and any(isinstance(t, ast.Name) and t.id == expr.id for t in x.targets)]
+        return bool(binds) and all(_str_kind(b.value, fn) for b in binds)
+    return False
+
+
+def _memo_key_findings(ctx, modules):
+    """(node, construct, why): memoised plain functions whose cache key is not provably a plain string. The cache compares keys with
+    == and hash(): 1, 1.0 and True are ONE key, and the value classes of this package compare by Excel semantics (Text("") == Number(0),
+    equal hashes), so whichever argument arrives first decides what later, different arguments get back."""
+    mods = list(modules)
+    for m in mods:
+        for qual, fn in m.funcs.items():
+            memo = None
+            for d in fn.decorator_list:
+                target = d.func if isinstance(d, ast.Call) else d
+                ref = ctx.res.resolve(target, m) if m.name in ctx.res.imports else _ctl_resolve(target)
+                if ref in MEMO_DECOS and not ref.endswith('cached_property'):
+                    memo = (ref, d)
+            if memo is None:
+                continue
+            typed = isinstance(memo[1], ast.Call) and any(k.arg == 'typed' and isinstance(k.value, ast.Constant) and k.value.value is True
+                                                         for k in memo[1].keywords)
+            params = [a for a in fn.args.posonlyargs + fn.args.args + fn.args.kwonlyargs if a.arg not in ('self', 'cls')]
+            if fn.args.vararg or fn.args.kwarg:
+                yield (fn, f'cache key of the memoised {qual}', f'{qual} is memoised on *args/**kwargs: the key kinds cannot be established')
+                continue
+            for idx, a in enumerate(params):
+                if isinstance(a.annotation, ast.Name) and a.annotation.id == 'str':
+                    continue
+                # every call site must pass a plain string
+                sites = []
+                for om in mods:
+                    for oq, ofn in om.funcs.items():
+                        for c in flow.calls_in(ofn):
+                            callee = c.func.id if isinstance(c.func, ast.Name) else (c.func.attr if isinstance(c.func, ast.Attribute) else None)
+                            if callee == fn.name:
+                                arg = c.args[idx] if len(c.args) > idx else next((k.value for k in c.keywords if k.arg == a.arg), None)
+                                sites.append((ofn, arg))
+                proven = bool(sites) and all(arg is not None and _str_kind(arg, ofn) for ofn, arg in sites)
+                if not proven:
+                    yield (fn, f'cache key of the memoised {qual}: parameter {idx}',
+                           f'{qual} is memoised ({memo[0][4:]}) and its parameter `{a.arg}` is not provably a plain string at every call '
+                           f'site: numbers, booleans{"" if typed else " (1 == 1.0 == True share one cache slot)"} and the value classes of '
+                           'this package (Text("") == Number(0) == Boolean(FALSE) with equal hashes) compare equal although the function '
+                           'computes different results for them - what a cell gets depends on what was evaluated before it')
+
+
 def _ctl_resolve(target):
     d = dotted(target)
     return {'lru_cache': 'ext:functools.lru_cache', 'functools.lru_cache': 'ext:functools.lru_cache',
@@ -163,14 +232,33 @@ class K:
 '''
 
 
+CONTROL_KEY = '''
+import functools
+@functools.lru_cache(maxsize=512)
+def compile_it(criteria):
+    return criteria
+@functools.lru_cache(maxsize=64)
+def unquote(name: str):
+    return name.strip()
+def parse(x):
+    return compile_it(cast(x)), unquote(str(x))
+'''
+
+
 def rule_2(ctx):
     # positive control: the detector must still see the pinned tree's defect shape
     ctl = Module('_control', 'selftest/_control.py', CONTROL)
     hits = list(_memo_findings(ctx, [ctl]))
     if len(hits) != 1:
         ctx.errors.append('C05.2: positive control (lru_cache(maxsize=None) on a method) not detected')
+    ctl2 = Module('_control2', 'selftest/_control2.py', CONTROL_KEY)
+    if len(list(_memo_key_findings(ctx, [ctl2]))) != 1:
+        ctx.errors.append('C05.2: positive control (memoised function keyed by a value object) not detected')
     n = 0
     for node, construct, why in _memo_findings(ctx, ctx.repo.modules.values()):
+        n += 1
+        ctx.bad(node, construct, why)
+    for node, construct, why in _memo_key_findings(ctx, ctx.repo.modules.values()):
         n += 1
         ctx.bad(node, construct, why)
     # decorators inspected
